@@ -311,7 +311,7 @@ Proof. exact dq_unset_no_maps. Qed.
 Theorem c18_dq_group_size_total : forall i g,
   In g (dq_ids i) -> length g <> 1 -> length g <> 2 -> api_decompose i <> Proceeds.
 Proof.
-  intros i g H1 H2 H3. apply (decompose_not_ok_of_group i g H1). rewrite (dq_group_size _ g H2 H3). discriminate.
+  intros i g H1 H2 H3. apply (decompose_not_ok_of_group i g H1). rewrite (dq_group_size _ _ g H2 H3). discriminate.
 Qed.
 Theorem c18_dq_non_qpd_total : forall i g k,
   In g (dq_ids i) -> In k g -> nth_error (dq_circ i) k = Some DOther -> api_decompose i <> Proceeds.
@@ -448,6 +448,13 @@ Example c18_ex_two_in_pair :
   api_decompose i = Refused /\ dq_final i = dq_circ i /\
   api_decompose (mkDq [DQ 0 6 None; DQ 0 6 None; DOther] [[0; 1]] (Some [Some 1%Z]) []) = Proceeds.
 Proof. repeat split; reflexivity. Qed.
+Example c18_ex_f7_repaired : api_decompose f7_input = Refused /\ dq_final f7_input = dq_circ f7_input.
+Proof. split; reflexivity. Qed.
+(* the historic interleaved loop refuses too, but has already set gate 0's basis_id *)
+Example c18_f7_interleaved_breaks_frame :
+  fst (dq_run_interleaved f7_input) = Refused /\
+  snd (dq_run_interleaved f7_input) = [DQ 0 6 (Some 0); DQ 0 6 None].
+Proof. split; reflexivity. Qed.
 (* F12 witness: cx(0,1); ccx(0,1,2) with labels A B C *)
 Definition f12_input : pcq_in :=
   mkPcq 3 [Some 0; Some 1; Some 2] [mkG (KOp cxd) [0; 1]; mkG (KOp ccxd) [0; 1; 2]].
